@@ -6,6 +6,7 @@ import (
 	"github.com/trajectoryjp/spatial_id_go/v4/common"
 	"github.com/trajectoryjp/spatial_id_go/v4/common/consts"
 	"github.com/trajectoryjp/spatial_id_go/v4/common/errors"
+	"github.com/trajectoryjp/spatial_id_go/v4/common/object"
 	"github.com/trajectoryjp/spatial_id_go/v4/integrate"
 	"strconv"
 	"strings"
@@ -81,15 +82,16 @@ func CheckSpatialIdsArrayOverlap(spatialIds1 []string, spatialIds2 []string) (bo
 		index1 := tree.Indexs{convertedFIndex, int64(x1), int64(y1)}
 		tr.Append(index1, tree.ZoomSetLevel(zoom1), spatialId1)
 	}
-	// spatialIds2から各要素の取り出し
+	// spatialIds2の全要素を、比較の前にフォーマットと高度範囲について確認する
+	// (重複が見つかった時点で返却するため、確認を後回しにすると以降の不正な空間IDが見逃される)
+	indexes2 := make([]tree.Indexs, 0, len(spatialIds2))
+	zooms2 := make([]tree.ZoomSetLevel, 0, len(spatialIds2))
 	for indexSpatialId2, spatialId2 := range spatialIds2 {
 		zoom2, f2, x2, y2, err := getSpatialIdAttrs(spatialId2)
 		if err != nil {
 			return false, fmt.Errorf("%w @spatialId2[%v]", err, indexSpatialId2)
 		}
-		// 取り出した要素の比較
 		// 高度インデックスをオフセット変換のみ実行して自然数にする
-		// minAltitudeKey == maxAltitudeKeyになるため結果は片方のみ利用する
 		convertedFIndex2, errAltConversion := offsetFIndex(int64(f2), int64(zoom2))
 		if convertedFIndex2 < 0 {
 			return false, errors.NewSpatialIdError(errors.InputValueErrorCode, fmt.Sprintf("input f-index %v is out of altitude range @spatialId2[%v] = %v", f2, indexSpatialId2, spatialId2))
@@ -97,14 +99,18 @@ func CheckSpatialIdsArrayOverlap(spatialIds1 []string, spatialIds2 []string) (bo
 		if errAltConversion != nil {
 			return false, fmt.Errorf("%w @spatialId2[%v] = %v", errAltConversion, indexSpatialId2, spatialId2)
 		}
-		if len(spatialIds1) == 0 {
-			// 比較元が空の場合は重複なし(空のツリーは探索できないため探索しない)
-			continue
-		}
-		result := tr.IsOverlap(tree.Indexs{convertedFIndex2, int64(x2), int64(y2)}, tree.ZoomSetLevel(zoom2))
-		if result {
+		indexes2 = append(indexes2, tree.Indexs{convertedFIndex2, int64(x2), int64(y2)})
+		zooms2 = append(zooms2, tree.ZoomSetLevel(zoom2))
+	}
+	if len(spatialIds1) == 0 {
+		// 比較元が空の場合は重複なし(空のツリーは探索できないため探索しない)
+		return false, nil
+	}
+	// 取り出した要素の比較
+	for i := range indexes2 {
+		if tr.IsOverlap(indexes2[i], zooms2[i]) {
 			// 重複判定時、trueとnilを返却
-			return result, nil
+			return true, nil
 		}
 	}
 
@@ -250,9 +256,9 @@ func CheckExtendedSpatialIdsOverlap(extendedSpatialId1 string, extendedSpatialId
 
 func CheckExtendedSpatialIdsArrayOverlap(extendedSpatialIds1 []string, extendedSpatialIds2 []string) (bool, error) {
 	// spatialIds1から各要素の取り出し
-	for _, extendedSpatialId1 := range extendedSpatialIds1 {
+	for index1, extendedSpatialId1 := range extendedSpatialIds1 {
 		// spatialIds2から各要素の取り出し
-		for _, extendedSpatialId2 := range extendedSpatialIds2 {
+		for index2, extendedSpatialId2 := range extendedSpatialIds2 {
 			// 取り出した要素の比較
 			result, err := CheckExtendedSpatialIdsOverlap(extendedSpatialId1, extendedSpatialId2)
 			if err != nil {
@@ -260,10 +266,33 @@ func CheckExtendedSpatialIdsArrayOverlap(extendedSpatialIds1 []string, extendedS
 				return false, err
 			}
 			if result {
-				// 重複判定時、trueとnilを返却
+				// 重複判定時、まだ比較していない要素のフォーマットを確認してからtrueとnilを返却
+				if err := validateExtendedSpatialIds(extendedSpatialIds1[index1+1:], extendedSpatialIds2[index2+1:]); err != nil {
+					return false, err
+				}
 				return result, nil
 			}
 		}
 	}
+	if len(extendedSpatialIds1) == 0 || len(extendedSpatialIds2) == 0 {
+		// 一方が空の場合は比較が一度も行われないため、もう一方のフォーマットをここで確認する
+		if err := validateExtendedSpatialIds(extendedSpatialIds1, extendedSpatialIds2); err != nil {
+			return false, err
+		}
+	}
 	return false, nil
+}
+
+// validateExtendedSpatialIds 拡張空間IDのフォーマット確認関数
+//
+// 入力された全ての拡張空間IDが"hZoom/x/y/vZoom/z"形式の整数5要素であることを確認する。
+func validateExtendedSpatialIds(extendedSpatialIdsList ...[]string) error {
+	for _, extendedSpatialIds := range extendedSpatialIdsList {
+		for _, extendedSpatialId := range extendedSpatialIds {
+			if _, err := object.NewExtendedSpatialID(extendedSpatialId); err != nil {
+				return fmt.Errorf("invalid format. extendedSpatialId: %v", extendedSpatialId)
+			}
+		}
+	}
+	return nil
 }
